@@ -8,7 +8,7 @@ from av.props import simprop
 MANIFEST_ENTRY = {
     "category": "exploration",
     "technique": "impulse-response monitor on the public Result (unambiguous single-cohort histories), occupancy-bound invariant on every run, and a bin-level reference keyring stepped one step ahead from the recorded per-bin state; generated and shipped (corpus) timed models, calibrated durations",
-    "text": "(1) purpose-built models inject a cohort in exactly one step (time-varying number data) into a timed compartment with duration D and optional competing outflows of fraction q: the timed outflow must be zero before index s+n, carry cohort*(1-q)^n at s+n and nothing afterwards, with n = max(1, ceil(D/dt)) and n = k when D/dt is k up to rounding (D = k/den, dt = 1/den for den in {3,4,7,10,12,52,365}); uniform initial occupants must leave as x0/n per step over the first n steps; D < dt empties the compartment every step. (2) in every generated run (duration groups of 1-3 members, group junctions, per-population durations connected by transfers, hostile rates) the group occupancy is bounded by the arrivals of the preceding n steps plus the unexpired initial share. (3) the per-bin contents are predicted one step ahead by an independent keyring model (arrivals enter the last bin, bins shift, duration-preserving links move bin for bin and never out of the final bin, other links act on all bins, the flush link takes what remains in bin 0, longer/shorter destination durations as documented) and compared with the recorded bins. Every 8th case is a model shipped with the repository (49 library / fixture framework-databook(-program book) combinations and 18 fixture frameworks with a generated databook: several population types, interactions, derivative parameters, hand-made junction and duration-group layouts) run under perturbation: other step sizes and horizons, calibration factors from mild to hostile, program books switched on at arbitrary years with scaled budgets. About a third of the generated runs carry a generated program set (program-driven rates, numbers and junction proportions, boundary outcomes of exactly 0). Duration parameters carry calibration factors (a doubly applied factor was a defect of the pinned tree). A fifth of the timed durations are defined by a parameter function while the databook holds a different value (the bins must follow the function).",
+    "text": "(1) purpose-built models inject a cohort in exactly one step (time-varying number data) into a timed compartment with duration D and optional competing outflows of fraction q: the timed outflow must be zero before index s+n, carry cohort*(1-q)^n at s+n and nothing afterwards, with n = max(1, ceil(D/dt)) and n = k when D/dt is k up to rounding (D = k/den, dt = 1/den for den in {3,4,7,10,12,52,365}); uniform initial occupants must leave as x0/n per step over the first n steps; D < dt empties the compartment every step. (2) in every generated run (duration groups of 1-3 members, group junctions, per-population durations connected by transfers, hostile rates) the group occupancy is bounded by the arrivals of the preceding n steps plus the unexpired initial share. (3) the per-bin contents are predicted one step ahead by an independent keyring model (arrivals enter the last bin, bins shift, duration-preserving links move bin for bin and never out of the final bin, other links act on all bins, the flush link takes what remains in bin 0, longer/shorter destination durations as documented) and compared with the recorded bins. Every 8th case is a model shipped with the repository (49 library / fixture framework-databook(-program book) combinations and 18 fixture frameworks with a generated databook: several population types, interactions, derivative parameters, hand-made junction and duration-group layouts) run under perturbation: other step sizes and horizons, calibration factors from mild to hostile, program books switched on at arbitrary years with scaled budgets. About a third of the generated runs carry a generated program set (program-driven rates, numbers and junction proportions, boundary outcomes of exactly 0). Duration parameters carry calibration factors (a doubly applied factor was a defect of the pinned tree). A fifth of the timed durations are defined by a parameter function while the databook holds a different value (the bins must follow the function). Durations that exceed a whole number k of steps by 1e-7 ... 4e-6 k need k + 1 steps.",
     "note": "(3) reads the internal per-bin arrays; if they disappear that sub-claim is inconclusive and (1),(2) on the public surface still decide.",
 }
 
